@@ -641,5 +641,11 @@ func Portfolio(ctx *Ctx, asserts []*Term, want []*Term, timeoutS int) (Result, [
 			c.Process.Kill()
 		}
 	}
+	if dir := os.Getenv("VERIF_DUMP_UNKNOWN"); dir != "" && res == Unknown {
+		dumpSeq++
+		os.WriteFile(fmt.Sprintf("%s/unknown-%d-%d.smt2", dir, os.Getpid(), dumpSeq), []byte(script), 0o644)
+	}
 	return res, vals, who
 }
+
+var dumpSeq int
